@@ -33,6 +33,15 @@ static const char* DTD_A = "<!ELEMENT r (#PCDATA|a|b)*><!ELEMENT a EMPTY><!ELEME
 static const char* DTD_B = "<!ELEMENT r (#PCDATA|a)*><!ELEMENT a (#PCDATA)>"
                            "<!ATTLIST a id CDATA #IMPLIED ref CDATA #IMPLIED><!ENTITY f \"fromB\">";
 static const char* DTD_C = "<!ELEMENT r ANY><!ELEMENT a ANY><!ELEMENT b ANY><!ENTITY e \"<a>&f;</a>\"><!ENTITY f \"<a><b></a>\">";
+// two DIFFERENT schemas for the same key (target namespace urn:x): SA is offered to loadGrammar, SB is what the documents name
+static const char* XSD_A = "<xs:schema xmlns:xs='http://www.w3.org/2001/XMLSchema' targetNamespace='urn:x' elementFormDefault='qualified'>"
+                           "<xs:element name='a'><xs:complexType><xs:attribute name='k' type='xs:string' default='fromA'/></xs:complexType></xs:element></xs:schema>";
+static const char* XSD_B = "<xs:schema xmlns:xs='http://www.w3.org/2001/XMLSchema' targetNamespace='urn:x' elementFormDefault='qualified'>"
+                           "<xs:element name='a'><xs:complexType><xs:attribute name='k' type='xs:string' default='fromB'/></xs:complexType></xs:element>"
+                           "<xs:element name='b' type='xs:int'/></xs:schema>";
+#define SYS_XA "file:///vf/sA.xsd"
+#define SYS_XB "file:///vf/sB.xsd"
+#define XSI " xmlns:xsi='http://www.w3.org/2001/XMLSchema-instance' xsi:schemaLocation='urn:x " SYS_XB "'"
 #define SYS_A "file:///vf/gA.dtd"
 #define SYS_B "file:///vf/gB.dtd"
 static std::string intDoc(const char* dtd, const char* body, const char* decl = "") {
@@ -52,6 +61,8 @@ static const std::vector<std::string>& docs() {
         extDoc(SYS_A, "<r><a id=\"x\"/><a ref=\"x\"/>&e;</r>"),                               // 8 external A, valid
         extDoc(SYS_B, "<r><a id=\"x\">&f;</a></r>"),                                          // 9 external B, valid
         extDoc(SYS_A, "<r><a ref=\"q\"/><u/></r>"),                                           // 10 external A, invalid
+        "<a xmlns='urn:x'" XSI "/>",                                                          // 11 schema document, valid under SA and SB (default k differs)
+        "<b xmlns='urn:x'" XSI ">42</b>",                                                     // 12 schema document, valid under SB only
     };
     return v;
 }
@@ -61,6 +72,7 @@ static std::string absKey(const std::string& k) {   // real pool key -> abstract
     if (k == SYS_A) return "A";
     if (k == SYS_B) return "B";
     if (k == "[dtd]") return "dtd";
+    if (k == "urn:x") return "X";
     return k;
 }
 
@@ -69,7 +81,7 @@ struct MemResolver : public XMLEntityResolver {
     InputSource* resolveEntity(XMLResourceIdentifier* id) override {
         asked++;
         std::string s = to8(id->getSystemId());
-        const char* t = s == SYS_A ? DTD_A : s == SYS_B ? DTD_B : nullptr;
+        const char* t = s == SYS_A ? DTD_A : s == SYS_B ? DTD_B : s == SYS_XB ? XSD_B : s == SYS_XA ? XSD_A : nullptr;
         if (!t) return nullptr;
         return new MemBufInputSource(reinterpret_cast<const XMLByte*>(t), strlen(t), id->getSystemId(), false);
     }
@@ -104,7 +116,7 @@ struct TDom : public XercesDOMParser {
     }
 };
 
-struct Feat { int val = 0; bool ns = true, cache = false, use = false; };
+struct Feat { int val = 0; bool ns = true, cache = false, use = false, schema = false; };
 
 // One real parser object (one API, one scanner) with its own grammar pool.
 struct Life {
@@ -196,24 +208,28 @@ struct Life {
     void setFeat(const std::string& ft, int v) {
         if (ft == "val") f.val = v;
         if (ft == "ns") f.ns = v != 0;
+        if (ft == "schema") f.schema = v != 0;
         pcfg.namespaces = f.ns;
         pcfg.validation = f.val;
         switch (api) {
         case pd::SAX:
             if (ft == "val") saxp->setValidationScheme(f.val == 0 ? SAXParser::Val_Never : f.val == 1 ? SAXParser::Val_Always : SAXParser::Val_Auto);
             if (ft == "ns") saxp->setDoNamespaces(f.ns);
+            if (ft == "schema") saxp->setDoSchema(f.schema);
             if (ft == "cache") saxp->cacheGrammarFromParse(v != 0);
             if (ft == "use") saxp->useCachedGrammarInParse(v != 0);
             break;
         case pd::SAX2:
             if (ft == "val") { sax2p->setFeature(XMLUni::fgSAX2CoreValidation, f.val != 0); sax2p->setFeature(XMLUni::fgXercesDynamic, f.val == 2); }
             if (ft == "ns") sax2p->setFeature(XMLUni::fgSAX2CoreNameSpaces, f.ns);
+            if (ft == "schema") sax2p->setFeature(XMLUni::fgXercesSchema, f.schema);
             if (ft == "cache") sax2p->setFeature(XMLUni::fgXercesCacheGrammarFromParse, v != 0);
             if (ft == "use") sax2p->setFeature(XMLUni::fgXercesUseCachedGrammarInParse, v != 0);
             break;
         case pd::DOM:
             if (ft == "val") domp->setValidationScheme(f.val == 0 ? AbstractDOMParser::Val_Never : f.val == 1 ? AbstractDOMParser::Val_Always : AbstractDOMParser::Val_Auto);
             if (ft == "ns") domp->setDoNamespaces(f.ns);
+            if (ft == "schema") domp->setDoSchema(f.schema);
             if (ft == "cache") domp->cacheGrammarFromParse(v != 0);
             if (ft == "use") domp->useCachedGrammarInParse(v != 0);
             break;
@@ -221,6 +237,7 @@ struct Life {
             DOMConfiguration* dc = lsp->getDomConfig();
             if (ft == "val") { dc->setParameter(XMLUni::fgDOMValidate, f.val == 1); if (f.val == 2) dc->setParameter(XMLUni::fgDOMValidateIfSchema, true); }
             if (ft == "ns") dc->setParameter(XMLUni::fgDOMNamespaces, f.ns);
+            if (ft == "schema") dc->setParameter(XMLUni::fgXercesSchema, f.schema);
             if (ft == "cache") dc->setParameter(XMLUni::fgXercesCacheGrammarFromParse, v != 0);
             if (ft == "use") dc->setParameter(XMLUni::fgXercesUseCachedGrammarInParse, v != 0);
         }
@@ -234,6 +251,7 @@ struct Life {
     void configureLike(const Feat& o) {
         setFeat("val", o.val);
         setFeat("ns", o.ns ? 1 : 0);
+        if (o.schema) setFeat("schema", 1);
         if (o.cache) setFeat("cache", 1);
         else if (o.use) setFeat("use", 1);
     }
@@ -374,15 +392,17 @@ struct Life {
     json load(const std::string& g, bool cache) {
         beginRun(0);
         runTok = -1;
-        const char* t = dtdText(g);
-        MemBufInputSource src(reinterpret_cast<const XMLByte*>(t), strlen(t), dtdSys(g), false);
+        const bool xsd = g == "X" || g == "SA" || g == "SB";
+        const char* t = g == "SB" ? XSD_B : xsd ? XSD_A : dtdText(g);
+        MemBufInputSource src(reinterpret_cast<const XMLByte*>(t), strlen(t), g == "SB" ? SYS_XB : xsd ? SYS_XA : dtdSys(g), false);
+        const Grammar::GrammarType ty = xsd ? Grammar::SchemaGrammarType : Grammar::DTDGrammarType;
         Grammar* gr = nullptr;
         guarded([&]() {
             switch (api) {
-            case pd::SAX: gr = saxp->loadGrammar(src, Grammar::DTDGrammarType, cache); break;
-            case pd::SAX2: gr = sax2p->loadGrammar(src, Grammar::DTDGrammarType, cache); break;
-            case pd::DOM: gr = domp->loadGrammar(src, Grammar::DTDGrammarType, cache); break;
-            default: { Wrapper4InputSource in(&src, false); gr = lsp->loadGrammar(&in, Grammar::DTDGrammarType, cache); }
+            case pd::SAX: gr = saxp->loadGrammar(src, ty, cache); break;
+            case pd::SAX2: gr = sax2p->loadGrammar(src, ty, cache); break;
+            case pd::DOM: gr = domp->loadGrammar(src, ty, cache); break;
+            default: { Wrapper4InputSource in(&src, false); gr = lsp->loadGrammar(&in, ty, cache); }
             }
         });
         return {{"loaded", gr != nullptr}, {"fatals", cur.fatals}, {"errors", cur.errors}, {"exception", cur.exception}, {"messages", cur.messages}};
@@ -520,6 +540,10 @@ static bool runHistory(const Combo& co, const json& hist, bool probe, std::vecto
         if (hzNow == "lockedScratch" || hzNow == "dgScratch") corrupt = true;
         progress(tag + "|" + std::to_string(i) + "|" + hzNow);
         json o = {{"op", op}};
+        if (co.scanner == "DGXMLScanner" && ((a == "parse" && op[1].get<int>() >= 11) || (a == "load" && op[1] == "X"))) {
+            stat += "\tskipped:dg-schema";      // DGXMLScanner has no schema support: the specification's grammar stores do not apply
+            return corrupt;
+        }
         if (a == "parse") {
             int d = op[1], kk = op[2];
             if (co.api == pd::DOMLS && kk > 0) { stat += "\tskipped:ls-handler"; return corrupt; }
@@ -528,6 +552,8 @@ static bool runHistory(const Combo& co, const json& hist, bool probe, std::vecto
             json got = life.parse(d, kk);
             Life fr(co.api, co.scanner);
             fr.configureLike(fNow);
+            // F(doc, cfg, visible grammars): the reference parser is given the cached grammar the specification says this parse sees
+            if (!probe && exp.contains("vis") && exp["vis"] == "SA") fr.load("X", true);
             json ref = fr.parse(d, kk);
             stat += "\tparses";
             o["got"] = abstractOf(got);
